@@ -255,6 +255,17 @@ def observe(g, L, known, grid, light=False):
     except Exception as ex:
         err.append("nodes:exc:" + exc_name(ex))
     o["nodes"] = nodes
+    attrs = []
+    try:
+        for c, d in g.nodes(data=True):
+            a = d.get("lab", 0) if isinstance(d, dict) else -1
+            try:
+                attrs.append([L.anode(c), a if isinstance(a, int) and not isinstance(a, bool) else -1])
+            except (KeyError, TypeError):
+                pass
+    except Exception as ex:
+        err.append("attrs:exc:" + exc_name(ex))
+    o["attrs"] = attrs
 
     # timelines
     try:
